@@ -17,7 +17,9 @@ def all_valid_draws(n):
 
 
 def key_of(motifs):
-    return json.dumps(motifs)
+    """a placement: WHICH ordered groups of stubs become motifs of which topology; in what order the motifs are built is not part
+    of it (a generator may work through its topologies, or the groups of one topology, in any order)"""
+    return json.dumps(sorted(motifs, key=json.dumps))
 
 
 def ref_shape(build, vs):
@@ -35,7 +37,7 @@ def ref_shape(build, vs):
 def built_key(build_of, groups_with_edges):
     """a placement AS BUILT: per motif its topology and the multiset of its edges (which slot a stub fills is visible here
     for motifs that are not symmetric in their slots, e.g. cycles of 4 or more vertices)"""
-    return json.dumps([[t, es] for t, es in groups_with_edges])
+    return json.dumps(sorted(([t, es] for t, es in groups_with_edges), key=json.dumps))
 
 
 class C03(Prop):
